@@ -518,8 +518,24 @@ fn unit_or_empty(r: SResult<U, E>) -> Stream<U, E> {
     }
 }
 
+/// The goals of one list, built in order. Two structurally identical closures in a row are ONE
+/// goal object used twice (clone), as in a program that keeps a goal in a Rust variable: every
+/// evaluation of a closure must build its body anew.
+pub fn build_list<G: Kinded>(gs: &[ast::Goal], env: &Env) -> Vec<G> {
+    let mut v: Vec<G> = Vec::with_capacity(gs.len());
+    for (i, g) in gs.iter().enumerate() {
+        if i > 0 && matches!(g, ast::Goal::Closure(_)) && gs[i - 1] == *g {
+            let again = v[i - 1].clone();
+            v.push(again);
+        } else {
+            v.push(build_goal::<G>(g, env));
+        }
+    }
+    v
+}
+
 pub fn build_conj<G: Kinded>(gs: &[ast::Goal], env: &Env) -> G {
-    let v: Vec<G> = gs.iter().map(|g| build_goal::<G>(g, env)).collect();
+    let v: Vec<G> = build_list::<G>(gs, env);
     match API_MODE.with(|m| m.get()) {
         0 => InferredConj::from_array(&v).cast_into(),
         mode => G::conj_fn(v, mode),
@@ -527,7 +543,7 @@ pub fn build_conj<G: Kinded>(gs: &[ast::Goal], env: &Env) -> G {
 }
 
 fn build_clauses<G: Kinded>(cl: &[Vec<ast::Goal>], env: &Env) -> Vec<Vec<G>> {
-    cl.iter().map(|c| c.iter().map(|g| build_goal::<G>(g, env)).collect()).collect()
+    cl.iter().map(|c| build_list::<G>(c, env)).collect()
 }
 
 fn as_slices<G>(v: &[Vec<G>]) -> Vec<&[G]> {
@@ -563,8 +579,12 @@ pub fn build_goal<G: Kinded>(g: &ast::Goal, env: &Env) -> G {
             Closure::new(ClosureOperatorParam::new(Box::new(move || build_conj::<G>(&body, &env)))).cast_into()
         }
         A::Dfs(body) => {
-            let v: Vec<DFSGoal<U, E>> = body.iter().map(|g| build_goal::<DFSGoal<U, E>>(g, env)).collect();
-            let cl: Vec<&[DFSGoal<U, E>]> = v.iter().map(|g| std::slice::from_ref(g)).collect();
+            let v: Vec<DFSGoal<U, E>> = build_list::<DFSGoal<U, E>>(body, env);
+            // `dfs { g1, g2, .. }` (one clause per goal) or `dfs { [g1, g2, ..] }` (one bracketed
+            // clause): both are the conjunction of the goals; which spelling is used depends on
+            // the body only
+            let bracketed = v.len() >= 2 && body.iter().map(|g| g.count()).sum::<usize>() % 2 == 0;
+            let cl: Vec<&[DFSGoal<U, E>]> = if bracketed { vec![&v[..]] } else { v.iter().map(|g| std::slice::from_ref(g)).collect() };
             proto_vulcan::operator::dfs::<U, E, G>(OperatorParam::new(&cl)).cast_into()
         }
         A::Conda(cl) => {
